@@ -141,8 +141,8 @@ def run_bodies(prop, tier, seed):
     if prop == "C05":
         chk.machine_family("heads-with-cuts", head_cut_scenarios(), props=("CleanAfterEnd", "BarriersOK"), features=features)
         SG = gen.scale_groups()
-        chk.machine_family("scale-many-clauses-with-cuts", SG["manyclauses-cut"], {"budget_extra": 20000000}, props=("CleanAfterEnd", "BarriersOK"), features=features, max_steps=8000)
-        chk.machine_family("scale-many-cuts-then-evaluate_bounded", SG["cuts-then-bounded"], {"budget_extra": 20000000}, props=("CleanAfterEnd", "BarriersOK"), features=features, max_steps=30000)
+        chk.machine_family("scale-many-clauses-with-cuts", SG["manyclauses-cut"], {"budget_extra": 20000000, "must_complete": True}, props=("CleanAfterEnd", "BarriersOK"), features=features, max_steps=8000)
+        chk.machine_family("scale-many-cuts-then-evaluate_bounded", SG["cuts-then-bounded"], {"budget_extra": 20000000, "must_complete": True}, props=("CleanAfterEnd", "BarriersOK"), features=features, max_steps=30000)
     if prop == "C06":
         rs = gen.reentered_scenarios(rnd, 700 if tier == "quick" else None)
         chk.machine_family("constructs-re-entered-per-answer", rs, props=("CleanAfterEnd", "BarriersOK"), features=features, opts_list=MODES)
